@@ -62,6 +62,12 @@ def generate(rng, tier, focus, k=None):
         mode = "process"
     else:
         mode = "equiv" if rng.random() < 0.35 else "discover"
+    if mode == "discover" and rng.random() < 0.02:
+        # automatic discovery over the WHOLE shipped data directory (topologies and coordinates of other systems, emptied
+        # files, several resolutions of the same molecules) for the shipped BMIM/BF4 box
+        return {"mode": "auto_shipped", "scale": rng.choice([0.5, 1.0, round(rng.uniform(0.1, 1.5), 3)]),
+                "np_seed": rng.randrange(2 ** 32), "list_seed": rng.randrange(2 ** 31), "set_seed": rng.randrange(2 ** 31),
+                "steps_factor": 1, "exclude": rng.choice([[], [], ["BF4"], ["BMIM"]]), "out": rng.choice(["abs", "rel", "default"])}
     if mode == "equiv" and rng.random() < (0.05 if tier == "quick" else 0.03):
         return {"mode": "equiv_shipped", "scale": rng.choice([0.5, 1.0, round(rng.uniform(0.1, 1.5), 3)]),
                 "np_seed": rng.randrange(2 ** 32), "order": rng.sample([0, 1], 2), "outfile": rng.random() < 0.5, "steps_factor": 1}
@@ -89,9 +95,10 @@ def generate(rng, tier, focus, k=None):
     tr["exclude"] = [s for s in range(n_sp) if status[str(s)] == "complete" and rng.random() < 0.25]
     tr["exclude_bogus"] = rng.random() < 0.2
     tr["distractors"] = {"txt": rng.random() < 0.5, "absent_species": rng.random() < 0.5, "system_in_list": rng.random() < 0.5,
-                         "start_coordinates": rng.random() < 0.5, "uppercase_ext": rng.random() < 0.2,
+                         "start_coordinates": rng.random() < 0.5,
                          "near_miss": rng.random() < 0.4, "dotted_names": rng.random() < 0.3,
                          "itp_style": rng.choice([0, 0, 1, 2, 3, 4, 5]), "other_spelling": rng.random() < 0.5}
+    tr["auto_out"] = rng.choice(["abs", "abs", "rel", "default"])
     tr["list_seed"] = rng.randrange(2 ** 31)
     tr["set_seeds"] = [rng.randrange(2 ** 31) for _ in range(3)]
     tr["hashseeds"] = [rng.randrange(1, 4000) for _ in range(2)]
@@ -138,6 +145,36 @@ def run_main(argv, np_seed, steps_factor, sink, extra_patches=(), cwd=None):
     return buf.getvalue()
 
 
+def recording_auto_map(store):
+    """A pass-through replacement for gaddlemaps._cli.auto_map that notes the species list the tool decided on."""
+    import gaddlemaps._cli as C
+    real = C.auto_map
+
+    def auto_map(refrence_coordinates, species, *a, **kw):
+        store["species"] = [list(map(str, t)) for t in species]
+        return real(refrence_coordinates, species, *a, **kw)
+    return (C, "auto_map", auto_map)
+
+
+def added_order(stdout, store, explicit, expected):
+    """Names of the discovered species in the order the tool handed them to the mapping step: from the recorded call if the
+    tool made one, otherwise from what it printed; None if neither tells."""
+    if store.get("species") is not None:
+        expl = {tuple(os.path.realpath(x) for x in t) for t in explicit}
+        by_top = {os.path.realpath(v["top_CG"]): n for n, v in expected.items()}
+        names = []
+        for t in store["species"]:
+            if tuple(os.path.realpath(x) for x in t) in expl:
+                continue
+            names.append(by_top.get(os.path.realpath(t[0]), "?" + os.path.basename(t[0])))
+        return names, {by_top.get(os.path.realpath(t[0]), "?" + os.path.basename(t[0])): tuple(os.path.realpath(x) for x in t)
+                       for t in store["species"] if tuple(os.path.realpath(x) for x in t) not in expl}
+    found = [m.group(1) for m in re.finditer(r"The molecue (\S+) has been added", stdout)]
+    if found or "has been added" in stdout:
+        return found, None
+    return None, None
+
+
 def run_library(system, triples, scale, out, np_seed, steps_factor, sink):
     import io
     import contextlib
@@ -166,6 +203,8 @@ def execute(trace, ctx):
         return exec_equiv_shipped(trace, ctx)
     if mode == "discover":
         return exec_discover(trace, ctx)
+    if mode == "auto_shipped":
+        return exec_auto_shipped(trace, ctx)
     return exec_process(trace, ctx)
 
 
@@ -181,7 +220,7 @@ def _compare_outputs(ctx, cli_out, lib_out, d1, d2, label):
         ctx.violate(P, "cli-differs-from-library", f"{label}: output differs from the library workflow's at line {k}: "
                                                    f"{la[k][:60] if k < len(la) else None!r} vs {lb[k][:60] if k < len(lb) else None!r}")
     elif d1 != d2:
-        ctx.violate(P, "random-stream-differs", f"{label}: same output but the two workflows consumed different random streams")
+        ctx.probe("same_output_other_random_stream")     # (the statement speaks about the output file only)
 
 
 def exec_equiv(trace, ctx):
@@ -215,6 +254,13 @@ def exec_equiv(trace, ctx):
         return
     except Exception as e:
         ctx.op("equiv", "cli-raised")
+        # "equals the library workflow": a world both refuse is not a difference
+        try:
+            run_library(paths["system"], triples, scale, os.path.join(d, "lib_result.gro"), trace["np_seed"], trace["steps_factor"], s2)
+        except Exception as e2:
+            if type(e2) is type(e):
+                ctx.probe("both_workflows_refuse")
+                return
         ctx.violate(P, "cli-raised", f"the command-line run raised {type(e).__name__}: {e}", key=type(e).__name__)
         return
     lib_out = os.path.join(d, "lib_result.gro")
@@ -229,10 +275,10 @@ def exec_equiv(trace, ctx):
     _compare_outputs(ctx, cli_out, lib_out, s1.digest(), s2.digest(), "generated world")
     if not trace["outfile"]:
         ctx.probe("default_output_name")
-        extra = [os.path.join(r, f) for r, _, fs in os.walk(d) for f in fs
-                 if f.startswith("mapped_") and os.path.join(r, f) != cli_out]
-        if extra:
-            ctx.violate(P, "default-output-name", f"unexpected output files {extra}")
+    extra = [os.path.join(r, f) for r, _, fs in os.walk(d) for f in fs
+             if f.startswith("mapped_") and os.path.join(r, f) != cli_out]
+    if extra:
+        ctx.violate(P, "default-output-name", f"unexpected output files {extra} (requested output: {os.path.basename(cli_out)})")
     ctx.nontrivial = True
     ctx.op("equiv", f"{len(triples)}sp")
     ctx.sig.append((tuple(trace["order"]), trace["outfile"], trace["scale_given"], len(world["instances"]),
@@ -267,6 +313,80 @@ def exec_equiv_shipped(trace, ctx):
     ctx.probe("shipped_box")
     ctx.nontrivial = True
     ctx.op("equiv_shipped", "ok")
+
+
+def exec_auto_shipped(trace, ctx):
+    """--auto over every shipped data file for the shipped BMIM/BF4 box: exactly BMIM and BF4 are found, each with its own
+    three files, whatever the list and set orders; the output is the library workflow's."""
+    import random as _r
+    import gaddlemaps
+    import gaddlemaps._cli as C
+    D = gaddlemaps.DATA_FILES_PATH
+    d = ctx.tmpdir()
+    system = os.path.join(d, "box.gro")
+    shutil.copy(D["system_bmimbf4_cg.gro"], system)
+    files = sorted(set(D.values()))
+    lr = _r.Random(trace["list_seed"])
+    lr.shuffle(files)
+    expected = {"BMIM": {"top_CG": D["BMIM_CG.itp"], "coor_AA": D["BMIM_AA.gro"], "top_AA": D["BMIM_AA.itp"]},
+                "BF4": {"top_CG": D["BF4_CG.itp"], "coor_AA": D["BF4_AA.gro"], "top_AA": D["BF4_AA.itp"]}}
+    excluded = list(trace.get("exclude") or [])
+    argv = [system, "--auto", *files, "--scale", repr(trace["scale"])]
+    if excluded:
+        argv += ["--exclude", *excluded]
+    if trace["out"] == "default":
+        out = os.path.join(d, "mapped_box.gro")
+    else:
+        out = os.path.join(d, "res.gro")
+        argv += ["-o", out if trace["out"] == "abs" else "res.gro"]
+    real_classify = C.classify_files
+    sr = _r.Random(trace["set_seed"])
+    rank = {}
+
+    def key(x):
+        if x not in rank:
+            rank[x] = sr.random()
+        return rank[x]
+
+    def classify(fs):
+        t, c = real_classify(fs)
+        ctx.fault("set_iteration_order_permuted")
+        return PermSet(t, key), PermSet(c, key)
+    store = {}
+    sink = Sink()
+    try:
+        stdout = run_main(argv, trace["np_seed"], trace["steps_factor"], sink,
+                          extra_patches=[(C, "classify_files", classify), recording_auto_map(store)], cwd=d)
+    except (SystemExit, Exception) as e:
+        ctx.violate(P, "cli-raised", f"--auto over the shipped data files raised {type(e).__name__}: {e}", key=type(e).__name__)
+        return
+    ctx.steps += sink.n
+    ctx.probe("auto_over_shipped_data_directory")
+    order_added, handed = added_order(stdout, store, [], expected)
+    want = sorted(n for n in expected if n not in excluded)
+    if order_added is None:
+        ctx.probe("auto_species_order_not_observable")
+    elif sorted(order_added) != want:
+        ctx.violate(P, "auto-reported-species", f"shipped data files: --auto handed on {order_added}, expected {want}")
+        return
+    elif handed is not None:
+        for n in order_added:
+            w_ = tuple(os.path.realpath(expected[n][k]) for k in ("top_CG", "coor_AA", "top_AA"))
+            if handed[n] != w_:
+                ctx.violate(P, "discovery-assignment", f"shipped data files: species {n} handed on with "
+                                                       f"{[os.path.basename(x) for x in handed[n]]}", key="assignment")
+                return
+    if not os.path.exists(out):
+        ctx.violate(P, "cli-output-missing", f"shipped data files: no output at {os.path.relpath(out, d)}")
+        return
+    if order_added is not None:
+        lib_out = os.path.join(d, "lib.gro")
+        s2 = Sink()
+        run_library(system, [(expected[n]["top_CG"], expected[n]["coor_AA"], expected[n]["top_AA"]) for n in order_added],
+                    trace["scale"], lib_out, trace["np_seed"], trace["steps_factor"], s2)
+        _compare_outputs(ctx, out, lib_out, sink.digest(), s2.digest(), "--auto over the shipped data files")
+    ctx.nontrivial = True
+    ctx.op("auto_shipped", f"{len(want)}sp")
 
 
 # --------------------------------------------------------------------------
@@ -413,8 +533,14 @@ def exec_discover(trace, ctx):
     argv += ["--auto", *order]
     if excluded or trace["exclude_bogus"]:
         argv += ["--exclude", *(excluded + (["NOTHERE"] if trace["exclude_bogus"] else []))]
-    out = os.path.join(d, "auto_out.gro")
-    argv += ["-o", out, "--scale", repr(trace["scale"])]
+    how_out = trace.get("auto_out", "abs")
+    if how_out == "default":
+        out = os.path.join(d, "mapped_" + os.path.basename(paths["system"]))
+        ctx.probe("auto_default_output_name")
+    else:
+        out = os.path.join(d, "auto_out.gro")
+        argv += ["-o", out if how_out == "abs" else os.path.relpath(out, d)]
+    argv += ["--scale", repr(trace["scale"])]
     want_species = [n for n in expected if n not in excluded] + [names[s] for s in range(len(names)) if trace["status"][str(s)] == "explicit"]
     sink = Sink()
     sr = _r.Random(trace["set_seeds"][0] + 1)
@@ -431,9 +557,10 @@ def exec_discover(trace, ctx):
     if not want_species:
         ctx.nontrivial = True
         return
+    store = {}
     try:
-        stdout = run_main(argv, trace["np_seed"], trace["steps_factor"], sink, extra_patches=[(C, "classify_files", classify2)],
-                          cwd=d)
+        stdout = run_main(argv, trace["np_seed"], trace["steps_factor"], sink,
+                          extra_patches=[(C, "classify_files", classify2), recording_auto_map(store)], cwd=d)
     except SystemExit as e:
         ctx.violate(P, "cli-exit", f"--auto run exited with {e.code}")
         return
@@ -445,8 +572,11 @@ def exec_discover(trace, ctx):
     ctx.steps += sink.n
     mapped_names = output_species(out, world)
     if mapped_names is None:
-        ctx.violate(P, "cli-output-missing", "--auto run wrote no readable output")
+        ctx.violate(P, "cli-output-missing", f"--auto run wrote no readable output at {os.path.relpath(out, d)}")
         return
+    stray = [os.path.join(r, f) for r, _, fs in os.walk(d) for f in fs if f.startswith("mapped_") and os.path.join(r, f) != out]
+    if stray:
+        ctx.violate(P, "default-output-name", f"--auto run left unexpected output files {stray}")
     present = {world["species"][i["species"]]["name"] for i in world["instances"]}
     if mapped_names != (set(want_species) & present):
         ctx.violate(P, "auto-mapped-species", f"--auto mapped species {sorted(mapped_names)}; complete and not excluded: "
@@ -454,9 +584,20 @@ def exec_discover(trace, ctx):
                     key="excluded" if mapped_names & set(excluded) else "other")
     else:
         # the --auto run equals the library workflow fed with the explicit triples followed by the discovered ones in
-        # the order the tool reports having added them (that order decides who consumes the random stream first)
-        order_added = [m.group(1) for m in re.finditer(r"The molecue (\S+) has been added", stdout)]
-        if sorted(order_added) == sorted(n for n in expected if n not in excluded):
+        # the order the tool handed them on (that order decides who consumes the random stream first)
+        order_added, handed = added_order(stdout, store, explicit, expected)
+        want_auto = sorted(n for n in expected if n not in excluded)
+        if order_added is None:
+            ctx.probe("auto_species_order_not_observable")
+        elif sorted(order_added) == want_auto:
+            if handed is not None:
+                for n in order_added:
+                    w_ = tuple(os.path.realpath(expected[n][k]) for k in ("top_CG", "coor_AA", "top_AA"))
+                    if handed[n] != w_:
+                        ctx.violate(P, "discovery-assignment", f"--auto handed species {n} to the mapping step with files "
+                                                               f"{[os.path.basename(x) for x in handed[n]]}, its files are "
+                                                               f"{[os.path.basename(x) for x in w_]}", key="assignment")
+                        return
             triples = [tuple(t) for t in explicit] + [(expected[n]["top_CG"], expected[n]["coor_AA"], expected[n]["top_AA"])
                                                       for n in order_added]
             s2 = Sink()
@@ -470,8 +611,7 @@ def exec_discover(trace, ctx):
             _compare_outputs(ctx, out, lib_out, sink.digest(), s2.digest(), "--auto run")
             ctx.probe("auto_run_compared_with_library")
         else:
-            ctx.violate(P, "auto-reported-species", f"--auto reported adding {order_added}; complete and not excluded: "
-                                                    f"{sorted(n for n in expected if n not in excluded)}")
+            ctx.violate(P, "auto-reported-species", f"--auto handed on {order_added}; complete and not excluded: {want_auto}")
     if excluded:
         ctx.probe("excluded_species")
     if explicit:
@@ -536,8 +676,12 @@ def exec_process(trace, ctx):
             argv += ["--exclude", *excluded]
         out = f"proc{hi}.gro"
         argv += ["-o", out, "--scale", repr(trace["scale"])]
-        code = ("import sys, numpy; from gaddlemaps import Alignment; Alignment.STEPS_FACTOR=%d; numpy.random.seed(%d); "
-                "sys.argv=['gaddlemaps']+%r; from gaddlemaps._cli import main; main()" % (trace["steps_factor"], trace["np_seed"] % (2 ** 32), argv))
+        code = ("import sys, json, numpy; from gaddlemaps import Alignment; Alignment.STEPS_FACTOR=%d; numpy.random.seed(%d); "
+                "sys.argv=['gaddlemaps']+%r; import gaddlemaps._cli as C; _real = C.auto_map\n"
+                "def _rec(ref, species, *a, **k):\n"
+                "    json.dump([list(map(str, t)) for t in species], open('handed%d.json', 'w'))\n"
+                "    return _real(ref, species, *a, **k)\n"
+                "C.auto_map = _rec; C.main()" % (trace["steps_factor"], trace["np_seed"] % (2 ** 32), argv, hi))
         env = dict(os.environ, PYTHONHASHSEED=str(hs), PYTHONPATH=REPO)
         try:
             cp = subprocess.run([sys.executable, "-c", code], capture_output=True, text=True, env=env, timeout=300, cwd=d)
@@ -550,22 +694,60 @@ def exec_process(trace, ctx):
             ctx.violate(P, "cli-process-failed", f"PYTHONHASHSEED={hs}: exit {cp.returncode}: {cp.stderr[-600:]}",
                         key="KeyError" if "KeyError" in cp.stderr else "other")
             return
+        # what the tool handed to the mapping step (recorded call), or failing that what it printed
         assign = {}
-        for m in re.finditer(r"The molecue (\S+) has been added with initial topology (\S+), final coordinates (\S+) and final topology (\S+)", cp.stdout):
-            assign[m.group(1)] = (os.path.basename(m.group(2)), os.path.basename(m.group(3)), os.path.basename(m.group(4)))
-        order_added = [m.group(1) for m in re.finditer(r"The molecue (\S+) has been added", cp.stdout)]
+        order_added = None
+        hp = os.path.join(d, "handed%d.json" % hi)
+        if os.path.exists(hp):
+            import json as _json
+            expl = {tuple(os.path.normpath(x) for x in t) for t in explicit}
+            by_top = {os.path.normpath(v["top_CG"]): n for n, v in expected.items()}
+            order_added = []
+            for t in _json.load(open(hp)):
+                tn = tuple(os.path.normpath(os.path.relpath(os.path.join(d, x), d)) for x in t)
+                if tn in expl:
+                    continue
+                name = by_top.get(tn[0], "?" + os.path.basename(tn[0]))
+                order_added.append(name)
+                assign[name] = tuple(os.path.basename(x) for x in tn)
+        elif "has been added" in cp.stdout or "molecules has been automatically added" in cp.stdout:
+            for m in re.finditer(r"The molecue (\S+) has been added with initial topology (\S+), final coordinates (\S+) and final topology (\S+)", cp.stdout):
+                assign[m.group(1)] = (os.path.basename(m.group(2)), os.path.basename(m.group(3)), os.path.basename(m.group(4)))
+            order_added = [m.group(1) for m in re.finditer(r"The molecue (\S+) has been added", cp.stdout)]
         outp = os.path.join(d, out)
         outs.append((assign, order_added, open(outp, "rb").read() if os.path.exists(outp) else None))
     want = {n: (os.path.basename(v["top_CG"]), os.path.basename(v["coor_AA"]), os.path.basename(v["top_AA"]))
             for n, v in expected.items() if n not in excluded}
     for hi, (assign, order_added, data) in enumerate(outs):
-        if assign != want:
-            ctx.violate(P, "process-assignment", f"PYTHONHASHSEED={trace['hashseeds'][hi]}: reported assignment {assign}, expected {want}")
+        hs = trace["hashseeds"][hi]
+        if data is None:
+            ctx.violate(P, "cli-output-missing", f"PYTHONHASHSEED={hs}: the process exited normally but wrote no output file")
             return
-    if outs[0][1] == outs[1][1] and outs[0][2] != outs[1][2]:
+        if order_added is None:
+            ctx.probe("auto_species_order_not_observable")
+            continue
+        if assign != want:
+            ctx.violate(P, "process-assignment", f"PYTHONHASHSEED={hs}: species handed to the mapping step {assign}, expected {want}")
+            return
+        # ... and the file it wrote is the library workflow's for the same triples in the same order, same random seed
+        triples = [tuple(os.path.join(d, x) for x in t) for t in explicit] + \
+                  [tuple(os.path.join(d, expected[n][k]) for k in ("top_CG", "coor_AA", "top_AA")) for n in order_added]
+        lib_out = os.path.join(d, f"proc{hi}_lib.gro")
+        try:
+            run_library(os.path.join(d, paths["system"]), triples, trace["scale"], lib_out, trace["np_seed"] % (2 ** 32),
+                        trace["steps_factor"], Sink())
+        except Exception as e:
+            ctx.violate(P, "library-raised", f"the library workflow raised {type(e).__name__}: {e}", key=type(e).__name__)
+            return
+        if open(lib_out, "rb").read() != data:
+            ctx.violate(P, "cli-differs-from-library", f"PYTHONHASHSEED={hs}: the process wrote a file that differs from the library "
+                                                       f"workflow's for the species it handed on ({order_added})", key="process")
+            return
+        ctx.probe("process_output_compared_with_library")
+    if outs[0][1] is not None and outs[0][1] == outs[1][1] and outs[0][2] != outs[1][2]:
         ctx.violate(P, "process-output-differs", "two processes with different hash seeds added the species in the same order but "
                                                  "wrote different outputs")
-    if outs[0][1] == outs[1][1]:
+    if outs[0][1] is not None and outs[0][1] == outs[1][1]:
         ctx.probe("same_species_order_across_hash_seeds")
     ctx.probe("real_process_runs", len(outs))
     ctx.nontrivial = True
